@@ -73,6 +73,12 @@ var plans = map[string]PropPlan{
 		QuickSecs: 90, ThoroughSecs: 900,
 		Assumptions: append([]string{"which API calls are made on the closed connection is an explored environment choice (every single call and every ordered pair of the 32 call shapes)", "every actor is run to quiescence before and after each call, so a call that does not return is an exact deadlock verdict"}, schedAssume...),
 	},
+	"C13": {
+		Quick:     []Plan{{Scenario: "server", PB: 2, DB: 1}},
+		Thorough:  []Plan{{Scenario: "server", PB: 3, DB: 2}},
+		QuickSecs: 110, ThoroughSecs: 1500,
+		Assumptions: append([]string{"AF_UNIX abstract-namespace listener (synchronous connect); 1-2 clients; EMFILE on accept injected as an environment deviation; Shutdown deadline on the virtual clock"}, schedAssume...),
+	},
 	"C16": {
 		Quick: []Plan{{Scenario: "adapters", Kind: "seq"}}, Thorough: []Plan{{Scenario: "adapters", Kind: "seq"}},
 		QuickSecs: 90, ThoroughSecs: 1200,
